@@ -18,7 +18,7 @@ pub use ply::Ply;
 use square::Square;
 use zkey::ZKey;
 
-use std::{collections::HashSet, fmt};
+use std::{collections::HashMap, fmt};
 
 /// A board object, representing all of the state of the game
 /// Starts at bottom left corner of a chess board (a1), wrapping left to right on each row
@@ -28,7 +28,7 @@ pub struct Board {
     pub fullmove_counter: u16,
     en_passant_file: Option<u8>,
     history: Vec<Ply>,
-    position_history: HashSet<ZKey>,
+    position_history: HashMap<ZKey, u16>,
 
     bitboards: PieceBitboards,
     pub zkey: ZKey,
@@ -47,7 +47,7 @@ impl Default for Board {
             fullmove_counter: 1,
             en_passant_file: None,
             history: vec![Ply::default()],
-            position_history: HashSet::new(),
+            position_history: HashMap::new(),
 
             bitboards: PieceBitboards::default(),
             zkey: ZKey::new(),
@@ -169,7 +169,7 @@ impl Board {
     /// board.make_move(Ply::new(Square::new("a2"), Square::new("a3")));
     /// ```
     pub fn make_move(&mut self, mut new_move: Ply) {
-        self.position_history.insert(self.zkey);
+        *self.position_history.entry(self.zkey).or_insert(0) += 1;
         let previous_move: Ply = self.history.last().copied().unwrap_or_default();
 
         // Increment or reset halfmove clock
@@ -412,7 +412,12 @@ impl Board {
         }
 
         self.switch_turn();
-        self.position_history.remove(&self.zkey);
+        if let Some(count) = self.position_history.get_mut(&self.zkey) {
+            *count -= 1;
+            if *count == 0 {
+                self.position_history.remove(&self.zkey);
+            }
+        }
     }
 
     /// Moves a piece from one square to another, removing the piece from the destination square.
@@ -770,7 +775,7 @@ impl Board {
     ///
     /// * `position` - The `ZKey` to check for
     pub fn position_reached(&self, position: ZKey) -> bool {
-        self.position_history.contains(&position)
+        self.position_history.contains_key(&position)
     }
 
     /// Finds the move in the list of all legal moves that corresponds to the given notation
